@@ -7,6 +7,7 @@ import (
 
 	"sifverif/extract"
 	"sifverif/props"
+	"sifverif/relayrig"
 	"sifverif/report"
 )
 
@@ -29,6 +30,7 @@ var gens = map[string]func(props.Ctx) *report.Report{
 	"C11": props.C11,
 	"C14": props.C14,
 	"C16": props.C16,
+	"C17": props.C17,
 	"C19": props.C19,
 	"CALC": props.CalcAll,
 	"HIST": props.HistAll,
@@ -66,6 +68,8 @@ func main() {
 			fmt.Fprintln(os.Stderr, err)
 			os.Exit(1)
 		}
+	case "relay-segment":
+		relayrig.RunSegment(os.Args[2])
 	default:
 		fmt.Fprintln(os.Stderr, "unknown command")
 		os.Exit(2)
